@@ -76,7 +76,15 @@ def make_case(ctx, rng):
                                           edge_fraction=rng.choice([0.0, 0.3, 0.7]))
     opts = {"tag": rng.choice(["PS", "HP"]), "only_snvs": rng.random() < 0.2,
             "downsampling": rng.choice([2, 3, 4, 6, 15]),
-            "samples": None, "nbam": rng.choice([1, 1, 2])}
+            "samples": None, "nbam": rng.choice([1, 1, 2]), "rg_per_sample": rng.choice([1, 1, 2, 3]),
+            "mapq0": rng.random() < 0.25}
+    if opts["mapq0"]:
+        # run with --mapping-quality 0 and give reads arbitrary mapping qualities incl. 0: every read must then be
+        # used with its full base-quality weights
+        by = {}
+        for r in reads:
+            by.setdefault(r["name"], rng.choice([0, 0, 3, 20, 60]))
+            r["mapq"] = by[r["name"]]
     if opts["nbam"] == 2:
         # spread the templates over two BAM files and give them per-file names that collide across files
         # (same read name in both files, possibly on opposite haplotypes): whatshap keys reads by (file, name)
@@ -106,7 +114,7 @@ def run_case(ctx, sc, reads, opts, wd):
         if not sub and (f > 0 or nbam > 1):
             continue
         path = f"reads{f}.bam"
-        synth.write_bam(sc, sub, os.path.join(wd, path))
+        synth.write_bam(sc, sub, os.path.join(wd, path), rg_per_sample=opts.get("rg_per_sample", 1))
         bams.append(path)
     trace = os.path.join(wd, "trace.jsonl")
     if os.path.exists(trace):
@@ -115,10 +123,12 @@ def run_case(ctx, sc, reads, opts, wd):
             "--internal-downsampling", str(opts["downsampling"])]
     if opts["only_snvs"]:
         args.append("--only-snvs")
+    if opts.get("mapq0"):
+        args += ["--mapping-quality", "0"]
     for s in opts["samples"] or []:
         args += ["--sample", s]
     if not bams:
-        synth.write_bam(sc, [], os.path.join(wd, "reads0.bam"))
+        synth.write_bam(sc, [], os.path.join(wd, "reads0.bam"), rg_per_sample=opts.get("rg_per_sample", 1))
         bams = ["reads0.bam"]
     args += ["in.vcf"] + bams
     rc, out, err = run_cli(ctx, args, cwd=wd, env_extra={"WHATSHAP_VERIF_TRACE": trace})
@@ -190,6 +200,7 @@ def trace_term(sc, tr):
 
 
 TRACE_FN = ("fun c => match c with (reads, origin, beta, hl, tl, cols, cst) => "
+            "forallb (fun r => forallb (fun e => match e with (_, _, w) => Nat.ltb 0 w end) r) reads && "
             "error_free (haps_of tl) origin reads && Nat.eqb (cost (haps_of hl) beta reads) 0 && Nat.eqb cst 0 "
             "&& truth_up_to_flip reads cols (haps_of hl) (haps_of tl) end")
 
@@ -269,6 +280,8 @@ def do_runs(ctx, specs):
         ctx.tally("runs")
         ctx.tally("tag." + opts["tag"])
         ctx.tally("bam_files", opts.get("nbam", 1))
+        ctx.tally("read_groups_per_sample", opts.get("rg_per_sample", 1))
+        ctx.tally("runs_with_mapq0_option", 1 if opts.get("mapq0") else 0)
         ctx.tally("samples", len(sc.samples))
         if k < 2:
             ctx.sample({"opts": opts, "samples": sc.samples, "chroms": sc.chroms,
